@@ -98,13 +98,21 @@ Axpy(alpha, x, y) == EW(LAMBDA p, q : SAdd(SMul(alpha, p), q), x, y)
 \* same-shape add used to accumulate adjoints
 TAdd(a, b) == T(a.d, [k \in 1..Len(a.v) |-> SAdd(a.v[k], b.v[k])])
 
-\* sum of t over the positions that dims d was broadcast from (C03)
+\* sum of t over the positions that dims d was broadcast from (C03):
+\* element j of the result collects every element of t whose index agrees with j on the
+\* dimensions d really has and is arbitrary on the dimensions d was stretched over
 ReduceTo(t, d) ==
   IF t.d = d THEN t ELSE
-  T(d, [j \in 1..Prod(d) |->
-         LET picks == SelectSeq([k \in 1..Len(t.v) |-> k],
-                                LAMBDA k : OpIndex(d, Unflat(t.d, k-1)) = j)
-         IN SumV([p \in 1..Len(picks) |-> t.v[picks[p]]])])
+  LET r == Len(t.d)
+      pd == Pad(d, r)
+      free == [i \in 1..r |-> IF pd[i] = 1 THEN t.d[i] ELSE 1]
+      mult == Prod(free)
+  IN T(d, [j \in 1..Prod(d) |->
+            LET tidx == Unflat(pd, j-1) IN
+            SumV([c \in 1..mult |->
+                    LET fidx == Unflat(free, c-1)
+                        src == [i \in 1..r |-> IF pd[i] = 1 THEN fidx[i] ELSE tidx[i]]
+                    IN t.v[Flatten(t.d, src) + 1]])])
 
 \* sum(k): the last k dimensions collapsed into one unit dimension (C07); k in 1..rank
 SumKDims(d, k) == FirstN(d, Len(d) - k) \o <<1>>
@@ -301,8 +309,9 @@ SoftmaxVjp(a, s) ==     \* row Jacobian diag(p) - p p^T
      LET row == (k-1) \div n IN
      SMul(p.v[k], SAdd(s.v[k], SNeg(SumV([j \in 1..n |-> SMul(s.v[row*n + j], p.v[row*n + j])]))))])
 
-\* VJP of operation (op, par) at operands ts with respect to operand i, applied to seed s
-Vjp(op, par, ts, i, s) ==
+\* VJP of operation (op, par) at operands ts with respect to operand i, applied to seed s:
+\* THE DEFINITION (derived from the forward definitions)
+VjpDef(op, par, ts, i, s) ==
   CASE op = "add" -> IF i = 1 THEN LinVjp(LAMBDA X : Add(X, Zeros(ts[2].d)), ts[1].d, s)
                               ELSE LinVjp(LAMBDA X : Add(Zeros(ts[1].d), X), ts[2].d, s)
     [] op = "sub" -> IF i = 1 THEN LinVjp(LAMBDA X : Sub(X, Zeros(ts[2].d)), ts[1].d, s)
@@ -344,5 +353,109 @@ Vjp(op, par, ts, i, s) ==
          LET c == SDiv(SOne, SNat(ts[1].d[1])) IN
          IF i = 1 THEN ReduceTo(Scale(Mul(s, Neg(Div(ts[2], ts[1]))), c), ts[1].d)
          ELSE ReduceTo(Scale(Mul(s, Neg(Map(LAMBDA x : SFn("ln", x), ts[1]))), c), ts[2].d)
+
+(***************************************************************************)
+(* Closed forms of the same VJPs, linear in the tensor sizes, used where    *)
+(* the definition-derived form (size(X) forward evaluations) is too slow    *)
+(* for trace validation.  MC_Rules checks Vjp = VjpDef for every operation, *)
+(* every operand, all shape combinations within its bounds and prime-valued *)
+(* data, so the definition stays the only source of truth.                  *)
+(***************************************************************************)
+\* adjoint of the matrix product with respect to the left / right factor and the additive term
+MatmulVjpA(a, ta, b, tb, s) ==
+  LET sh == MatmulShape(a.d, ta, b.d, tb, NoTerm)
+      pa == Mat2(a.d) pb == Mat2(b.d)
+      la == FirstN(pa, Len(pa)-2) lb == FirstN(pb, Len(pb)-2)
+      nr == pa[Len(pa)-1] nc == pa[Len(pa)]
+      nl == Prod(sh.lead)
+  IN T(a.d, [p \in 1..Len(a.v) |->
+        LET lia == (p-1) \div (nr*nc)
+            rr == (((p-1) % (nr*nc)) \div nc) + 1
+            cc == ((p-1) % nc) + 1
+            r == IF ta THEN cc ELSE rr
+            k == IF ta THEN rr ELSE cc
+        IN SumV([L \in 1..nl |->
+              LET lidx == Unflat(sh.lead, L-1)
+                  mine == IF la = <<>> THEN 0 ELSE OpIndex(la, lidx) - 1
+                  lib == IF lb = <<>> THEN 0 ELSE OpIndex(lb, lidx) - 1
+              IN IF mine # lia THEN SZero
+                 ELSE SumV([j \in 1..sh.cols |->
+                        SMul(s.v[(L-1)*sh.rows*sh.cols + (r-1)*sh.cols + j], MatAt(b, pb, tb, lib, k, j))])])])
+MatmulVjpB(a, ta, b, tb, s) ==
+  LET sh == MatmulShape(a.d, ta, b.d, tb, NoTerm)
+      pa == Mat2(a.d) pb == Mat2(b.d)
+      la == FirstN(pa, Len(pa)-2) lb == FirstN(pb, Len(pb)-2)
+      nr == pb[Len(pb)-1] nc == pb[Len(pb)]
+      nl == Prod(sh.lead)
+  IN T(b.d, [p \in 1..Len(b.v) |->
+        LET lib == (p-1) \div (nr*nc)
+            rr == (((p-1) % (nr*nc)) \div nc) + 1
+            cc == ((p-1) % nc) + 1
+            k == IF tb THEN cc ELSE rr
+            j == IF tb THEN rr ELSE cc
+        IN SumV([L \in 1..nl |->
+              LET lidx == Unflat(sh.lead, L-1)
+                  mine == IF lb = <<>> THEN 0 ELSE OpIndex(lb, lidx) - 1
+                  lia == IF la = <<>> THEN 0 ELSE OpIndex(la, lidx) - 1
+              IN IF mine # lib THEN SZero
+                 ELSE SumV([r \in 1..sh.rows |->
+                        SMul(s.v[(L-1)*sh.rows*sh.cols + (r-1)*sh.cols + j], MatAt(a, pa, ta, lia, r, k))])])])
+TermPos(c, r, j, cols) == IF Len(c.v) = 1 THEN 1
+                          ELSE IF Len(c.d) = 1 \/ c.d[1] = 1 THEN j ELSE (r-1)*cols + j
+MatmulVjpC(a, ta, b, tb, c, s) ==
+  LET sh == MatmulShape(a.d, ta, b.d, tb, c)
+      rows == sh.rows cols == sh.cols
+  IN T(c.d, [q \in 1..Len(c.v) |->
+        SumV([p \in 1..Len(s.v) |->
+                IF TermPos(c, (((p-1) % (rows*cols)) \div cols) + 1, ((p-1) % cols) + 1, cols) = q
+                THEN s.v[p] ELSE SZero])])
+DotVjp(other, s) == T(other.d, [k \in 1..Len(other.v) |-> SMul(s.v[1], other.v[k])])
+
+\* adjoint of the convolution with respect to the image / the filters
+ConvVjpImg(img, flt, sr, sc, s) ==
+  LET sh == ConvShape(img.d, flt.d, sr, sc)
+      dp == sh.dp ir == sh.ir ic == sh.ic cnt == sh.cnt fr == sh.fr fc == sh.fc
+      orr == sh.orr occ == sh.occ  per == cnt*orr*occ  isz == dp*ir*ic
+  IN T(img.d, [p \in 1..Len(img.v) |->
+        LET bi == (p-1) \div isz
+            q0 == (p-1) % isz
+            k == q0 \div (ir*ic)  yy == (q0 % (ir*ic)) \div ic  xx == q0 % ic
+        IN SumV([w \in 1..(cnt*fr*fc) |->
+              LET f == (w-1) \div (fr*fc)  m == ((w-1) % (fr*fc)) \div fc  n == (w-1) % fc
+                  ym == yy - m  xn == xx - n
+              IN IF ym < 0 \/ xn < 0 \/ ym % sr # 0 \/ xn % sc # 0 \/ ym \div sr >= orr \/ xn \div sc >= occ
+                 THEN SZero
+                 ELSE SMul(s.v[bi*per + (f*orr + (ym \div sr))*occ + (xn \div sc) + 1],
+                           flt.v[((f*dp + k)*fr + m)*fc + n + 1])])])
+ConvVjpFlt(img, flt, sr, sc, s) ==
+  LET sh == ConvShape(img.d, flt.d, sr, sc)
+      dp == sh.dp ir == sh.ir ic == sh.ic cnt == sh.cnt fr == sh.fr fc == sh.fc
+      orr == sh.orr occ == sh.occ  per == cnt*orr*occ  isz == dp*ir*ic  nb == Prod(sh.batch)
+  IN T(flt.d, [p \in 1..Len(flt.v) |->
+        LET f == (p-1) \div (dp*fr*fc)
+            q0 == (p-1) % (dp*fr*fc)
+            k == q0 \div (fr*fc)  m == (q0 % (fr*fc)) \div fc  n == q0 % fc
+        IN SumV([w \in 1..(nb*orr*occ) |->
+              LET bi == (w-1) \div (orr*occ)  y == ((w-1) % (orr*occ)) \div occ  x == (w-1) % occ
+              IN SMul(s.v[bi*per + (f*orr + y)*occ + x + 1],
+                      img.v[bi*isz + (k*ir + (y*sr+m))*ic + (x*sc+n) + 1])])])
+
+Vjp(op, par, ts, i, s) ==
+  CASE op = "add" -> ReduceTo(s, ts[i].d)
+    [] op = "sub" -> IF i = 1 THEN ReduceTo(s, ts[1].d) ELSE ReduceTo(Neg(s), ts[2].d)
+    [] op = "mul" -> ReduceTo(Mul(s, ts[3 - i]), ts[i].d)
+    [] op = "div" /\ i = 1 -> ReduceTo(Div(s, ts[2]), ts[1].d)
+    [] op = "axpy" -> IF i = 1 THEN ReduceTo(Scale(s, par.alpha), ts[1].d) ELSE ReduceTo(s, ts[2].d)
+    [] op = "sum" -> LET g == Prod(LastN(ts[1].d, par.k)) IN
+                     T(ts[1].d, [j \in 1..Len(ts[1].v) |-> s.v[((j-1) \div g) + 1]])
+    [] op = "matmul" ->
+         IF MatmulShape(ts[1].d, par.ta, ts[2].d, par.tb, IF Len(ts) = 3 THEN ts[3] ELSE NoTerm).st = "dot"
+         THEN (IF i = 3 THEN T(ts[3].d, <<s.v[1]>>) ELSE DotVjp(ts[3 - i], s))
+         ELSE IF i = 1 THEN MatmulVjpA(ts[1], par.ta, ts[2], par.tb, s)
+         ELSE IF i = 2 THEN MatmulVjpB(ts[1], par.ta, ts[2], par.tb, s)
+         ELSE MatmulVjpC(ts[1], par.ta, ts[2], par.tb, ts[3], s)
+    [] op = "conv" -> IF i = 1 THEN ConvVjpImg(ts[1], ts[2], par.sr, par.sc, s)
+                               ELSE ConvVjpFlt(ts[1], ts[2], par.sr, par.sc, s)
+    [] OTHER -> VjpDef(op, par, ts, i, s)
 
 =============================================================================
